@@ -1,4 +1,5 @@
 """C05 — A YAML pipeline section builds the chain it describes."""
+import copy
 import json
 import os
 import tempfile
@@ -116,7 +117,7 @@ def gen_value(rng, depth=2):
 
 
 FAIL_EXC = ["ValueError", "TypeError", "KeyError", "AssertionError", "RuntimeError", "LookupError", "AttributeError",
-            "IndexError", "OSError", "NotImplementedError"]
+            "IndexError", "OSError", "NotImplementedError", "StopIteration", "StopIteration", "StopAsyncIteration"]
 
 
 SHARED = {"token": "<Token>", "mapping": {"p": 1, "q": [2]}}
@@ -169,9 +170,18 @@ def gen_case(rng):
         if kind == "mapping":
             # (the content of a __type__ element is translated, which rebuilds its containers: only objects
             # keep their identity there)
-            holders = [e for e in holders if e["form"] == "map"] or holders[:1]
-        for e in rng.sample(holders, rng.randint(1, min(3, len(holders)))):
+            holders = [e for e in holders if e["form"] == "map"]
+        for e in (rng.sample(holders, rng.randint(1, min(3, len(holders)))) if holders else []):
             e["kwargs"].append(["shared", {"$shared": kind}])
+    # a whole legacy element written once and repeated by alias (`- &e {__type__: ...}` ... `- *e`): the same
+    # mapping object stands at two places of the pipeline, and each place gets an object of its own
+    legacy = [i for i, e in enumerate(elems[:-1]) if e["form"] == "legacy"]
+    if legacy and rng.random() < 0.2:
+        j = rng.choice(legacy)
+        k = rng.randint(j + 1, len(elems) - 1)
+        elems[j]["anchor"] = "el%d" % j
+        elems.insert(k, {**copy.deepcopy(elems[j]), "alias_of": "el%d" % j})
+        del elems[k]["anchor"]
     return {"elems": elems, "fails": fail, "fail_exc": rng.choice(FAIL_EXC)}
 
 
@@ -197,8 +207,14 @@ def to_yaml(case):
             lines.append("  - %s" % tag)
             for k, v in e["kwargs"]:
                 lines.append("    %s: %s" % (k, dumps(v)))
+        elif e.get("alias_of"):
+            lines.append("  - *%s" % e["alias_of"])
         else:
-            lines.append("  - __type__: vh_c05mod.%s" % name)
+            if e.get("anchor"):
+                lines.append("  - &%s" % e["anchor"])
+                lines.append("    __type__: vh_c05mod.%s" % name)
+            else:
+                lines.append("  - __type__: vh_c05mod.%s" % name)
             for k, v in e["kwargs"]:
                 lines.append("    %s: %s" % (k, dumps(yaml_value(v))))
     return "\n".join(lines) + "\n"
@@ -322,8 +338,12 @@ def nontrivial(case, o):
 def shrinks(case):
     es = case["elems"]
     for i in range(len(es) - 1):
+        if es[i].get("anchor") and any(x.get("alias_of") == es[i]["anchor"] for x in es):
+            continue      # (an alias needs its anchor)
         yield {**case, "elems": es[:i] + es[i + 1:]}
     for i, e in enumerate(es):
+        if e.get("anchor") or e.get("alias_of"):
+            continue
         if e["args"] or e["kwargs"]:
             e2 = {**e, "args": e["args"][:-1], "kwargs": e["kwargs"][:-1]}
             if e2["form"] in ("seq", "raw") and not e2["args"]:
